@@ -678,6 +678,13 @@ mod sync_facade {
         c.policy.inner.lock().verif_admit().estimate(key)
     }
 
+    /// capacities of the insert buffer and of the policy's get-batch queue (`None` = unbounded)
+    pub fn cache_queue_caps<K, V, KH, C, U, CB, S>(
+        c: &Cache<K, V, KH, C, U, CB, S>,
+    ) -> (Option<usize>, Option<usize>) {
+        (c.insert_buf_tx.capacity(), c.policy.items_tx.capacity())
+    }
+
     pub fn cache_item_size<K, V, KH, C, U, CB, S>(c: &Cache<K, V, KH, C, U, CB, S>) -> usize
     where
         V: Send + Sync + 'static,
